@@ -157,4 +157,30 @@ def run (c : PCfg) (P : Phis) (idom : Nat → Nat) : Res St :=
   let r0 := initParams st0 (fun _ => none) c.params
   walk c P idom (c.blocks.length + 1) 0 r0.2 r0.1
 
+-- ---------------------------------------------------------------------------- the stack behind `scoped_versions`
+
+/-- `VarEnvironment<Version>`: a stack of blocks of (name, version) pairs, innermost first; `get_variable` searches from the
+    innermost block outwards, `add_variable` writes into the innermost block -/
+abbrev Frames := List (List (Var × Nat))
+
+def Frames.get : Frames → Var → Option Nat
+  | [], _ => none
+  | f :: rest, v =>
+    match f.find? (fun p => p.1 == v) with
+    | some p => some p.2
+    | none => Frames.get rest v
+
+def Frames.add : Frames → Var → Nat → Frames
+  | [], _, _ => []                                   -- `assert!(!self.variables.is_empty())`
+  | f :: rest, v, n => ((v, n) :: f) :: rest
+
+def Frames.push (fs : Frames) : Frames := [] :: fs    -- `add_variable_scope`
+def Frames.pop (fs : Frames) : Frames := fs.tail      -- `remove_variable_scope`
+
+/-- what the walk does to the stack while it visits a subtree: additions, and scopes around the visits of children -/
+inductive ScopeOps : (Frames → Frames) → Prop
+  | none : ScopeOps id
+  | add (v : Var) (n : Nat) {f : Frames → Frames} : ScopeOps f → ScopeOps (fun fs => f (fs.add v n))
+  | child {f g : Frames → Frames} : ScopeOps f → ScopeOps g → ScopeOps (fun fs => g ((f fs.push).pop))
+
 end Circomspect.SsaWalk
